@@ -170,6 +170,7 @@ SPECS = [
 """,
      "R10.5", "node counts itself before the repetition test: a second occurrence already scores as a draw"),
     ("C07", "sentinels-at-type-limits", EN, "const POS_INF: i32 = 9999999;\nconst NEG_INF: i32 = -POS_INF;", "const POS_INF: i32 = i32::MAX;\nconst NEG_INF: i32 = i32::MIN;", "R7.9", "NEG_INF = i32::MIN: the first negation of the abort sentinel / of the root window overflows"),
+    ("C07", "assert-on-line-length", EN, "    moves.sort_unstable_by_key(|k| Reverse(k.order_heuristic));\n    search_info.insert_into_cur_line(ply_from_root, &moves[0]);", "    moves.sort_unstable_by_key(|k| Reverse(k.order_heuristic));\n    assert!(ply_from_root < 64, \"line too long\");\n    search_info.insert_into_cur_line(ply_from_root, &moves[0]);", "R7.10", "an assert! in the search: lines reach ply 64 through check extensions and the null-move offset, the search thread dies"),
     ("C07", "revert-fix10-plycap", EN,
      """    if ply_from_root >= MAX_DEPTH as i32 {
         return quiesce(board, alpha, beta, search_info, zobrist_hasher);
@@ -643,6 +644,8 @@ pub fn send_to_gui(message: &str) {
 """, "", "R15.4", "short FEN rows accepted, leaving sentinel squares inside the board"),
     ("C15", "ep-field-ignored", BD, """            pawn_double_move: en_passant_pos,""", """            pawn_double_move: None,""", "R15.3", "en-passant square of the FEN dropped (key and state disagree too)"),
 
+    ("C15", "placement-longer-than-64-rejected", BD, "        let fen_rows: Vec<&str> = fen_config[0].split('/').collect();", "        if fen_config[0].len() > 64 {\n            return Err(\"Could not parse fen string: Piece placement is too long\");\n        }\n        let fen_rows: Vec<&str> = fen_config[0].split('/').collect();", "R15.7", "64 squares but up to 71 characters: fragmented legal positions are refused"),
+    ("C11", "revert-fix13-pv-by-squares-only", EN, "                if mov.last_move == b.last_move && mov.pawn_promotion == b.pawn_promotion {", "                if mov.last_move == b.last_move {", "R11.7", "previous best root move re-identified by (from, to) only: an under-promotion that mates is replaced by the queen promotion at the start of the next pass"),
 ]
 
 # Behaviour-preserving refactors: every check must stay SILENT on these (false-alarm controls).
